@@ -79,11 +79,34 @@ func TestIdentityDiffReplay(t *testing.T) {
 		opt.BetweenBlocks = func(h *sim.History) {
 			// reorganisation: every replica abandons its last k blocks (as the fork resolver does) and the
 			// history continues from there with different blocks
-			if len(h.Blocks) < 4 || rapid.IntRange(0, 6).Draw(t, "reorg") != 0 {
+			if len(h.Blocks) < 4 {
 				return
 			}
-			k := rapid.IntRange(1, 3).Draw(t, "reorgDepth")
 			w := h.W
+			// an abandoned EMPTY block that carried an identity diff (status switches are applied by empty blocks
+			// too) is the rare shape: take the opportunity in half of the cases
+			k := 0
+			for j := 1; j <= 3; j++ {
+				b := h.Blocks[len(h.Blocks)-j]
+				if b.IsEmpty() && !w.Replicas[0].Chain.GetIdentityDiff(b.Height()).Empty() {
+					evid.Count("a.empty_block_with_identity_diff_near_head")
+					if rapid.Bool().Draw(t, "reorgOverEmptyDiffBlock") {
+						// deeper than the block itself, so that the transactions that caused the diff are abandoned too
+						// and the replacement block at that height may have no diff at all
+						k = j + rapid.IntRange(0, 4).Draw(t, "deeperBy")
+						if k > len(h.Blocks)-1 {
+							k = len(h.Blocks) - 1
+						}
+					}
+					break
+				}
+			}
+			if k == 0 {
+				if rapid.IntRange(0, 6).Draw(t, "reorg") != 0 {
+					return
+				}
+				k = rapid.IntRange(1, 3).Draw(t, "reorgDepth")
+			}
 			target := w.Replicas[0].Head().Height() - uint64(k)
 			for _, r := range w.Replicas {
 				if !r.AppState.State.HasVersion(target) || !r.AppState.IdentityState.HasVersion(target) {
@@ -94,6 +117,9 @@ func TestIdentityDiffReplay(t *testing.T) {
 			for _, b := range h.Blocks[len(h.Blocks)-k:] {
 				if d := w.Replicas[0].Chain.GetIdentityDiff(b.Height()); !d.Empty() {
 					across = true
+					if b.IsEmpty() {
+						evid.Count("a.reorg_over_empty_block_with_identity_diff")
+					}
 				}
 			}
 			for _, r := range w.Replicas {
